@@ -3,7 +3,74 @@
 
 package nbio
 
-import "net"
+import (
+	"net"
+	"sync"
+	"time"
+	"unsafe"
+)
 
 // VerifSetAddrs gives a hand-made conn (VerifNewConn) its addresses; the HTTP layer dereferences RemoteAddr().
 func (c *Conn) VerifSetAddrs(l, r net.Addr) { c.lAddr, c.rAddr = l, r }
+
+// ---- the expiry a deadline timer is armed for, read without waiting for it (C16: a renewal is an observable event)
+//
+// A *time.Timer points at the runtime's timeTimer{c unsafe.Pointer; init bool; timer{mu; astate, state, isChan;
+// blocked uint32; when int64; …}}: `when` (runtime nanotime) sits at offset 32 on 64-bit targets of go1.23. The
+// layout is verified once per process against timers of known duration; if the check fails the hooks report
+// "unsupported" and the harness falls back to observing in real time only.
+
+const verifWhenOffset = 32
+
+var (
+	verifWhenOnce sync.Once
+	verifWhenOK   bool
+	verifWallBase time.Time // wall time that corresponds to runtime nanotime verifNanoBase
+	verifNanoBase int64
+)
+
+func verifWhen(t *time.Timer) int64 {
+	return *(*int64)(unsafe.Pointer(uintptr(unsafe.Pointer(t)) + verifWhenOffset))
+}
+
+func verifWhenInit() {
+	verifWhenOnce.Do(func() {
+		if unsafe.Sizeof(uintptr(0)) != 8 {
+			return
+		}
+		a := time.AfterFunc(time.Hour, func() {})
+		now := time.Now()
+		verifNanoBase = verifWhen(a) - int64(time.Hour)
+		verifWallBase = now
+		a.Stop()
+		ok := true
+		for _, d := range []time.Duration{50 * time.Millisecond, 3 * time.Second} {
+			b := time.AfterFunc(time.Hour, func() {})
+			b.Reset(d) // the deadline timers are renewed with Reset
+			got := verifWallBase.Add(time.Duration(verifWhen(b) - verifNanoBase)).Sub(time.Now())
+			b.Stop()
+			if got < d-20*time.Millisecond || got > d+20*time.Millisecond {
+				ok = false
+			}
+		}
+		verifWhenOK = ok
+	})
+}
+
+// VerifDeadlines returns the wall-clock expiry the read and the write deadline timer are currently armed for
+// (zero Time: no timer); ok = false when the runtime layout is not the expected one.
+func (c *Conn) VerifDeadlines() (r, w time.Time, ok bool) {
+	verifWhenInit()
+	if !verifWhenOK {
+		return
+	}
+	c.mux.Lock()
+	defer c.mux.Unlock()
+	if c.rTimer != nil {
+		r = verifWallBase.Add(time.Duration(verifWhen(c.rTimer) - verifNanoBase))
+	}
+	if c.wTimer != nil {
+		w = verifWallBase.Add(time.Duration(verifWhen(c.wTimer) - verifNanoBase))
+	}
+	return r, w, true
+}
